@@ -106,7 +106,7 @@ func (g *GenState) genWhere(t *rapid.T, ts []TableSpec, table int, label string,
 	}
 	w := &Where{Lit: rapid.IntRange(0, 2).Draw(t, label+".wlit") == 0}
 	cols := WhereCols(tb)
-	if len(cols) > 1 && rapid.IntRange(0, 2).Draw(t, label+".wcol.special") != 0 {
+	if len(cols) > 1 && rapid.IntRange(0, 3).Draw(t, label+".wcol.special") != 0 {
 		w.Col = rapid.SampledFrom(cols[1:]).Draw(t, label+".wcol")
 	}
 	if w.Col == 0 {
@@ -117,7 +117,7 @@ func (g *GenState) genWhere(t *rapid.T, ts []TableSpec, table int, label string,
 		w.Val = Val{B: []byte(fmt.Sprint(rapid.Int64Range(1, hi-1).Draw(t, label+".wid")))}
 		return w
 	}
-	if cand := g.Written[table][w.Col]; len(cand) > 0 && rapid.IntRange(0, 4).Draw(t, label+".wfresh") != 0 {
+	if cand := g.Written[table][w.Col]; len(cand) > 0 && rapid.IntRange(0, 7).Draw(t, label+".wfresh") != 0 {
 		w.Val = rapid.SampledFrom(cand).Draw(t, label+".wval")
 		return w
 	}
@@ -207,10 +207,21 @@ func genProto(t *rapid.T, s *Step, label string) {
 	}
 }
 
+// genTable: mostly the configured tables (the last table is the unconfigured one).
+func genTable(t *rapid.T, ts []TableSpec, label string) int {
+	if len(ts) > 1 && rapid.IntRange(0, 5).Draw(t, label+".free") != 0 {
+		return rapid.IntRange(0, len(ts)-2).Draw(t, label+".table")
+	}
+	return len(ts) - 1
+}
+
+// ProgKinds is AllKinds with more weight on the kinds a condition can name.
+var ProgKinds = append(append([]string{}, AllKinds...), KSearch, KSearch, KToken)
+
 // genSelect draws the SELECT shapes of the narrow generator.
 func genSelect(t *rapid.T, ts []TableSpec, g *GenState, label string) Step {
 	s := Step{Op: "select"}
-	s.Table = rapid.IntRange(0, len(ts)-1).Draw(t, label+".table")
+	s.Table = genTable(t, ts, label)
 	tb := ts[s.Table]
 	genProto(t, &s, label)
 	if rapid.IntRange(0, 2).Draw(t, label+".star") != 0 {
@@ -231,7 +242,7 @@ func GenProgStep(t *rapid.T, ts []TableSpec, g *GenState, label string) Step {
 		return genSelect(t, ts, g, label)
 	}
 	s := Step{Op: op}
-	s.Table = rapid.IntRange(0, len(ts)-1).Draw(t, label+".table")
+	s.Table = genTable(t, ts, label)
 	tb := ts[s.Table]
 	genProto(t, &s, label)
 	returning := func() {
@@ -266,7 +277,7 @@ func GenProgStep(t *rapid.T, ts []TableSpec, g *GenState, label string) Step {
 				}
 				// a plain INSERT always takes a fresh key; an upsert names a key that (probably) exists half of the time
 				id := int64(0)
-				if op == "upsert" && g.NextID[s.Table] > 1 && rapid.Bool().Draw(t, fmt.Sprintf("%s.r%d.oldkey", label, r)) {
+				if op == "upsert" && g.NextID[s.Table] > 1 && rapid.IntRange(0, 2).Draw(t, fmt.Sprintf("%s.r%d.oldkey", label, r)) != 0 {
 					id = rapid.Int64Range(1, g.NextID[s.Table]-1).Draw(t, fmt.Sprintf("%s.r%d.key", label, r))
 				}
 				if id == 0 || used[id] {
